@@ -416,6 +416,41 @@ def iter_describe(it, st, v):
         if k == 'map':
             d = iter_describe(it, st, v.f['inner'])
             return None if d is None else dict(kind='map', n=d['n'], inner=d, f=v.f['f'], elem=None)
+        if k == 'vec_into':
+            o, pos = v.f['buf'], v.f['pos']
+            b = st.heap[o]
+            n = X.binop('sub', b.len, pos, wrap=False) if not (pos.is_const and pos.val == 0) else b.len
+            def elem(st2, kk, o=o, pos=pos):
+                return it.read(st2, o, (('i', X.binop('add', pos, kk)),))
+            return dict(kind='vec_into', n=n, elem=elem)
+        if k == 'enumerate':
+            d = iter_describe(it, st, v.f['inner'])
+            if d is None or d.get('elem') is None:
+                return None
+            c0 = v.f['count']
+            def elem(st2, kk, d=d, c0=c0):
+                return Agg('tuple', None, [X.binop('add', c0, kk, wrap=False), d['elem'](st2, kk)])
+            return dict(kind='enumerate', n=d['n'], elem=elem, inner=d)
+        if k == 'copied':
+            d = iter_describe(it, st, v.f['inner'])
+            if d is None or d.get('elem') is None:
+                return None
+            return dict(kind='copied', n=d['n'], elem=lambda st2, kk, d=d: deref(it, st2, d['elem'](st2, kk)), inner=d)
+        if k == 'chunks':
+            sl, n_, pos = v.f['sl'], v.f['n'], v.f['pos']
+            total = sl.len
+            cnt = None
+            if total.op == 'imul' and (total.args[0] is n_ or total.args[1] is n_):
+                cnt = total.args[1] if total.args[0] is n_ else total.args[0]          # (a * n) / n = a  (n != 0 is asserted by the model)
+            elif total.is_const and n_.is_const and n_.val > 0:
+                cnt = usz(total.val // n_.val)
+            else:
+                cnt = X.binop('div', total, n_)
+            n = X.binop('sub', cnt, pos, wrap=False) if not (pos.is_const and pos.val == 0) else cnt
+            def elem(st2, kk, sl=sl, n_=n_, pos=pos):
+                idx = X.binop('add', pos, kk, wrap=False) if not (pos.is_const and pos.val == 0) else kk
+                return Slice(sl.obj, sl.path, X.binop('add', sl.start, X.binop('mul', idx, n_, wrap=False), wrap=False), n_, sl.mut, sl.flat, sl.origin)
+            return dict(kind='chunks', n=n, elem=elem)
         return None
     if isinstance(v, Agg) and v.kind == 'struct':
         t = it.ty(v.tid)
@@ -503,6 +538,12 @@ def advance(it, st, v):
             return v.replace(a=advance(it, st, v.f['a']), b=advance(it, st, v.f['b']))
         if v.kind == 'take':
             return v.replace(n=X.binop('sub', v.f['n'], usz(1)))
+        if v.kind in ('vec_into', 'chunks'):
+            return v.replace(pos=X.binop('add', v.f['pos'], usz(1)))
+        if v.kind == 'enumerate':
+            return v.replace(inner=advance(it, st, v.f['inner']), count=X.binop('add', v.f['count'], usz(1)))
+        if v.kind == 'copied':
+            return v.replace(inner=advance(it, st, v.f['inner']))
     if isinstance(v, Agg) and it.ty(v.tid).get('def') == 'std::ops::Range':
         return v.with_field(0, X.binop('add', v.fields[0], X.const(v.fields[0].ty, 1)))
     raise Unsupported(f"cannot advance {v!r}")
@@ -556,10 +597,26 @@ def m_collect(it, st, callee, args, dest_tid, site):
     body = st.clone()
     body.assume(X.binop('lt', k, n))
     body.loops = body.loops + (rec,)
+    base_len = len(body.pc)
+    pre_objs = dict(body.heap)
     outs = call_closure_any(it, body, d['f'], [d['inner']['elem'](body, k)])
     if len(outs) != 1:
-        raise Unsupported('map closure with several outcomes')
-    s2, val = outs[0]
+        # several control paths through the closure: one value whose scalars are select-trees over the branch
+        # conditions (only if the paths differ in nothing but their conditions and the returned value)
+        from .interp import merge_by_conditions
+        for s_, _ in outs:
+            # objects that existed before the call must be untouched on every path (temporaries of the callee are garbage)
+            if any(s_.heap.get(o, it) is not v_ for o, v_ in pre_objs.items()):
+                raise Unsupported('map closure with several outcomes that differ in their effects')
+        mv = merge_by_conditions([(list(s_.pc[base_len:]), v_) for s_, v_ in outs]) if outs else None
+        if mv is None:
+            raise Unsupported('map closure with several outcomes')
+        common = [c for c in outs[0][0].pc[base_len:] if all(c in s_.pc[base_len:] for s_, _ in outs[1:])]
+        s2 = outs[0][0].clone()
+        s2.pc = s2.pc[:base_len] + tuple(common)
+        val = mv
+    else:
+        s2, val = outs[0]
     rec.paths = 1
     # element type of the resulting Vec
     vt = it.ty(dest_tid)
@@ -832,3 +889,54 @@ def m_vec_is_empty(it, st, callee, args, dest_tid, site):
 @model('core::slice::<impl [T]>::is_empty', doc='len() == 0')
 def m_slice_is_empty(it, st, callee, args, dest_tid, site):
     return [(st, X.binop('eq', as_slice(it, st, args[0]).len, usz(0)))]
+
+
+# ---- further iterator adapters (each is the documented std behaviour; items keep their order)
+
+@model("<std::vec::Vec<T, A> as std::iter::IntoIterator>::into_iter", doc='owning iterator: yields the elements of the buffer by value, in order')
+def m_vec_into_iter_owned(it, st, callee, args, dest_tid, site):
+    v = vec_of(it, st, args[0])
+    return [(st, Opaque('vec_into', buf=v.f['buf'], pos=usz(0)))]
+
+@model('std::iter::Iterator::enumerate', doc='pairs (index, item), index counting from 0')
+def m_enumerate(it, st, callee, args, dest_tid, site):
+    return [(st, Opaque('enumerate', inner=args[0], count=usz(0)))]
+
+@model('std::iter::Iterator::copied', 'std::iter::Iterator::cloned', doc='dereferences each item (Copy element types)')
+def m_copied(it, st, callee, args, dest_tid, site):
+    return [(st, Opaque('copied', inner=args[0]))]
+
+@model('core::slice::<impl [T]>::chunks_exact', 'core::slice::<impl [T]>::chunks_exact_mut',
+       doc='consecutive sub-slices of exactly n elements; the remainder (len % n elements) is NOT yielded; panics if n == 0')
+def m_chunks_exact(it, st, callee, args, dest_tid, site):
+    sl = as_slice(it, st, args[0])
+    n = args[1]
+    zero = X.binop('eq', n, usz(0))
+    dec = it.decide(st, zero)
+    if dec is True:
+        it.rec.panic(kind='call', msg='chunk size must be non-zero (chunks_exact)', fn=site[0], ln=site[1], pc=st.pc, stack=st.stack, definite=True)
+        raise PathEnd('panic')
+    if dec is None:
+        it.rec.panic(kind='assert', msg='chunk size must be non-zero (chunks_exact)', fn=site[0], ln=site[1], pc=st.pc, stack=st.stack,
+                     cond=X.unop('not', zero), definite=False)
+        st.assume(X.unop('not', zero))
+    return [(st, Opaque('chunks', sl=sl, n=n, pos=usz(0)))]
+
+def _elem_array_len(it, st, sl):
+    b = st.heap.get(sl.obj)
+    if isinstance(b, Buf) and not sl.path and b.elem_tid is not None:
+        t = it.ty(b.elem_tid)
+        if t.get('k') == 'array':
+            return t['len']
+    return None
+
+@model('std::iter::Iterator::flatten', doc='flattening of a slice iterator over arrays [T; N]: the N*len scalars in order (the safe form of the from_raw_parts_mut view)')
+def m_flatten(it, st, callee, args, dest_tid, site):
+    v = args[0]
+    if isinstance(v, Opaque) and v.kind == 'slice_iter':
+        sl, pos = v.f['sl'], v.f['pos']
+        n = _elem_array_len(it, st, sl)
+        if n and not sl.flat and pos.is_const and pos.val == 0:
+            flat = Slice(sl.obj, sl.path, X.binop('mul', sl.start, usz(n), wrap=False), X.binop('mul', sl.len, usz(n), wrap=False), sl.mut, n, sl.origin)
+            return [(st, Opaque('slice_iter', sl=flat, pos=usz(0)))]
+    raise Unsupported(f"flatten of {v!r}")
